@@ -3,31 +3,47 @@ failures isolated, child restarted when necessary, no stale reply.
 
 Legs (DESIGN.md section 4, C18):
   D  design: TLC on Sandbox.tla (caller, parent task, child, OS; child death its own action;
-     EPIPE wedge modelled) for the repaired code: OneReplyEach / OwnReply / Isolation / NoStale
+     EPIPE wedge modelled; environment: the caller abandons a request, the idle child is killed
+     from outside) for the repaired code: OneReplyEach / OwnReply / Isolation / NoStale
      over every fault sequence and gap vector (VIEW: remaining plan + verdict of the history),
      cross-checked without VIEW, Progress under fairness without constraint; sanity: the
-     transcription of the code before the fix must violate the property.
-  G  TLC prints every (fault sequence, gap vector) with the set of reply classes the PROPERTY admits
-     per request; each is run through the real Sandbox::<TestSvc>::execute (own process per case,
-     16 at a time, outer deadline per call); replies compared with the admissible sets.  A mismatch
-     is re-run alone before it is believed.
+     transcription of the code before each of the three fixes must violate the property.
+  G  TLC prints every (entry sequence, gap vector) with the set of reply classes the PROPERTY admits
+     per entry; each is run through the real Sandbox::<TestSvc>::execute (own process per case,
+     JOBS at a time, outer deadline per call); replies compared with the admissible sets.  A mismatch
+     is re-run alone before it is believed.  Families: request kinds (gen*), requests + abandoned
+     requests + idle kills in every position (genenv*), idle times close to / beyond the time limit
+     before quick, slow and overrunning requests (genidle*), payload sizes around and above the
+     pipe buffer in either direction (sizes).
   V  hook events of parent.rs + call/ret marks of every conforming run validated by
      Trace_Sandbox.tla (drift level: the replies were already decided by G).
 """
 import json
 import os
+import time
 from concurrent.futures import ThreadPoolExecutor
 
 import vlib
 from vlib import log
 
 PROP = "C18"
-FAULTS = ("panic", "overrun", "oom", "exit")
-CLASS = {"Ok": "ok", "Panic": "panic", "Timeout": "timeout", "Crashed": "crashed"}
+FAULTS = ("panic", "overrun", "oom", "exit", "abandon", "abover", "kill")
+ENV = ("abandon", "abover", "kill")
+CLASS = {"Ok": "ok", "Panic": "panic", "Timeout": "timeout", "Crashed": "crashed", "Abandoned": "abandoned", "Env": "env"}
 TIMEOUT_MS = 200
+ENV_TIMEOUT_MS = 400        # the environment family: slow request = a quarter of it, abandoned after a tenth
+IDLE_TIMEOUT_MS = 400       # the idle-time family: slow request = a quarter of it, idle gaps 0.85 and 1.3 of it
+PARAMS = ("timeout_ms", "slow_ms", "abandon_ms", "big_bytes")
 LIMIT = 32 << 20
-JOBS = 16
-WEDGE_ACTIONS = ("CSendFail", "CRecvFail", "PWriteFail")   # unreachable in the repaired model by design
+JOBS = 20
+CORE_ACTIONS = ("CSend", "CRecv", "PSpawn", "PHsRead", "PTake", "PWriteLast", "PReadLast", "PTimeout", "PDeliver", "PKill",
+                "CHandle", "CWriteLast")
+WEDGE_ACTIONS = ("CSendFail", "CRecvFail", "CDrainFail", "PWriteFail")   # unreachable in the repaired model by design
+
+
+def gap_ms(code, timeout_ms):
+    """gap kinds of Sandbox.tla -> milliseconds"""
+    return {0: 0, 1: 60, 2: timeout_ms * 85 // 100, 3: timeout_ms * 13 // 10}[code]
 
 
 # ----------------------------------------------------------------------------
@@ -47,6 +63,8 @@ def judge(case, obs):
         c = r.get("class")
         if c not in allowed:
             return (i, c, "reply class %s, the property admits %s" % (c, allowed))
+        if kind == "kill" and c == "env" and r.get("pid") is None:
+            return (i, "no_child", "the harness found no child to kill")
         if c in ("ok", "panic") and not r.get("own"):
             return (i, c + "_not_own", "the %s reply is not this request's own (%s)" % (c, json.dumps(r)[:200]))
     return None
@@ -54,8 +72,11 @@ def judge(case, obs):
 
 def run_cases(cases, jobs, tag):
     path = vlib.workfile("c18-%d-%s.ndjson" % (os.getpid(), tag))
-    lines = [{"plan": c["plan"], "gaps": c["gaps"], "mode": c.get("mode", "async"),
-              "timeout_ms": TIMEOUT_MS, "limit": LIMIT} for c in cases]
+    lines = []
+    for c in cases:
+        ln = {"plan": c["plan"], "gaps": c["gaps"], "mode": c.get("mode", "async"), "timeout_ms": TIMEOUT_MS, "limit": LIMIT}
+        ln.update({k: c[k] for k in PARAMS if c.get(k)})
+        lines.append(ln)
     vlib.write_ndjson(path, lines)
     p = vlib.run_tool([vlib.rv("rv-sandbox"), "run", path, str(jobs)], timeout=7200)
     obs = [json.loads(x) for x in p.stdout.splitlines() if x.strip().startswith("{")]
@@ -82,10 +103,13 @@ def brief(obs):
 def violation_case(case, obs, bad):
     i, got, why = bad
     plan = case["plan"]
-    return {"engine": "sandbox-replay", "plan": plan, "gaps": case["gaps"], "mode": case.get("mode", "async"),
+    out = {k: case[k] for k in PARAMS if case.get(k)}
+    return {**out, "engine": "sandbox-replay", "family": case.get("family", "requests"),
+            "plan": plan, "gaps": case["gaps"], "mode": case.get("mode", "async"),
             "index": i + 1, "kind": plan[i] if i < len(plan) else None,
             "prev": plan[i - 1] if i > 0 else None,
             "faults_before": sorted(set(k for k in plan[:i] if k in FAULTS)),
+            "env_before": sorted(set(k for k in plan[:i] if k in ENV)),
             "got": got, "expected": case["expect"][i] if i < len(plan) else None,
             "why": why, "observed": brief(obs)}
 
@@ -102,13 +126,13 @@ def signature(case, bad):
 def trace_line(case, obs):
     evs = []
     for name, v in obs["events"]:
-        e = {"e": name, "v": 0 if name == "spawned" else int(v), "c": "", "own": 0}
+        e = {"e": name, "v": 0 if name == "spawned" else int(v), "c": "", "own": 0}   # envkill: v = plan position
         if name == "ret":
             r = obs["replies"][v - 1]
             e["c"] = r["class"]
             e["own"] = 1 if r.get("own") else 0
         evs.append(e)
-    return {"ev": "run", "plan": case["plan"], "events": evs}
+    return {"ev": "run", "plan": ["big" if k in ("bigin", "bigout") else k for k in case["plan"]], "events": evs}
 
 
 def validate_shard(args):
@@ -193,55 +217,123 @@ def trace_leg(run, good, thorough):
 # ----------------------------------------------------------------------------
 
 def design_leg(run, thorough):
-    def clean(cfg, workers, to, **kw):
-        r = vlib.tlc("MC_Sandbox", cfg, workers=workers, timeout=to, tag="c18d", xmx="12g", **kw)
+    design_record(run, design_compute(thorough))
+
+
+def design_compute(thorough):
+    """All TLC runs of the design leg at once (they are independent; the caller overlaps them with the replay leg)."""
+    # (cfg, TLC workers, timeout); biggest first.  quick: all at once (~11 workers); thorough: four at a time (<= 14 workers)
+    if thorough:
+        clean_cfgs = [("MC_Sandbox_fixedenv5", 4, 3000), ("MC_Sandbox_live4", 3, 3000), ("MC_Sandbox_fixed5", 3, 2400),
+                      ("MC_Sandbox_noview4", 3, 2400), ("MC_Sandbox_fixedenv4", 3, 2400), ("MC_Sandbox_noview", 2, 1200)]
+    else:
+        clean_cfgs = [("MC_Sandbox_fixedenv4", 4, 2400), ("MC_Sandbox_noview", 2, 1200), ("MC_Sandbox_live3", 2, 2400)]
+    # the transcription of the code before each fix must break the property (cfg, invariants it may break, what it stands for)
+    unfixed = [("MC_Sandbox_unfixed", ("OwnReply", "Isolation"), "no break_out after a Panic reply, no drain, no restart on EPIPE"),
+               ("MC_Sandbox_unfixed_abandon", ("NoStale",), "execute does not discard the reply of an abandoned request"),
+               ("MC_Sandbox_unfixed_epipe", ("OwnReply", "Isolation"), "a child killed while idle is not replaced")]
+
+    def one(job):
+        cfg, workers, to = job
+        return vlib.tlc("MC_Sandbox", cfg, workers=workers, timeout=to, tag="c18d", xmx="12g" if cfg.endswith("5") else "6g")
+
+    jobs = clean_cfgs + [(cfg, 1, 600) for cfg, _, _ in unfixed]
+    with ThreadPoolExecutor(max_workers=4 if thorough else len(jobs)) as ex:
+        results = list(ex.map(one, jobs))
+    return clean_cfgs, unfixed, results
+
+
+def design_record(run, computed):
+    clean_cfgs, unfixed, results = computed
+    for (cfg, _, _), r in zip(clean_cfgs, results):
         if r.invariant_violated or (not r.ok and not getattr(r, "timed_out", False) and "violated" in (r.error_text or "")):
             log(r.stdout[-3000:])
             raise vlib.ToolError("design model %s (repaired code) violates %s" % (cfg, r.invariant_violated or "a property"))
         vlib.require_ok(r, cfg)
         run.add_tlc(r, cfg)
-        return r
-    clean("MC_Sandbox_fixed5", 8, 1800)
-    clean("MC_Sandbox_noview", 4, 600)
-    r = clean("MC_Sandbox_live4" if thorough else "MC_Sandbox_live3", 8 if thorough else 4, 1800)
-    if "Checking temporal properties" not in r.stdout:
-        raise vlib.ToolError("liveness configuration did not check a temporal property")
-    # the transcription of the code before the fix must run into the wedge
-    r = vlib.tlc("MC_Sandbox", "MC_Sandbox_unfixed", workers=2, timeout=300, tag="c18u")
-    if r.invariant_violated not in ("OwnReply", "Isolation"):
-        log(r.stdout[-2000:])
-        raise vlib.ToolError("sanity: the unrepaired model (no break_out after a Panic reply) should violate OwnReply/Isolation")
-    wedge = "taskAlive = FALSE" in r.stdout
-    run.note("sanity_unfixed_model", "%s violated as expected (%d states; counterexample %s)" % (
-        r.invariant_violated, r.distinct, "reaches the EPIPE wedge" if wedge else "ends with Crashed for a later request"))
+        if "live" in cfg and "Checking temporal properties" not in r.stdout:
+            raise vlib.ToolError("liveness configuration did not check a temporal property")
+    notes = {}
+    for (cfg, may, what), r in zip(unfixed, results[len(clean_cfgs):]):
+        if r.invariant_violated not in may:
+            log(r.stdout[-2000:])
+            raise vlib.ToolError("sanity: the unrepaired model %s (%s) should violate %s" % (cfg, what, "/".join(may)))
+        notes[cfg] = "%s violated as expected (%s; %d states)" % (r.invariant_violated, what, r.distinct)
+    run.note("sanity_unfixed_models", notes)
+
+
+def family_of(cfg):
+    return "env" if "genenv" in cfg else "idle" if "genidle" in cfg else "requests"
 
 
 def generate(run, thorough):
-    cfgs = ["MC_Sandbox_gen4", "MC_Sandbox_gen5u"] if thorough else ["MC_Sandbox_gen3"]
+    cfgs = (["MC_Sandbox_gen4", "MC_Sandbox_gen5u", "MC_Sandbox_genenv3", "MC_Sandbox_genenv4", "MC_Sandbox_genidle3p"] if thorough
+            else ["MC_Sandbox_gen3", "MC_Sandbox_genenv3q", "MC_Sandbox_genidle3"])
+
+    def one(cfg):
+        return vlib.tlc("MC_Sandbox", cfg, workers=2, timeout=2400, coverage=True, tag="c18g", xmx="8g")
+
+    with ThreadPoolExecutor(max_workers=len(cfgs)) as ex:
+        results = list(ex.map(one, cfgs))
     cases = {}
-    for cfg in cfgs:
-        r = vlib.tlc("MC_Sandbox", cfg, workers=8, timeout=2400, coverage=True, tag="c18g", xmx="12g")
+    taken, every = set(), set()
+    for cfg, r in zip(cfgs, results):
         vlib.require_ok(r, cfg)
         run.add_tlc(r, cfg)
-        never = [a for a, (d, t) in r.coverage.items() if t == 0 and a not in WEDGE_ACTIONS]
-        if never or len(r.coverage) < 20:
-            raise vlib.ToolError("vacuity gate: actions never taken in %s: %s (coverage lines: %d)" % (cfg, never, len(r.coverage)))
+        taken |= set(a for a, (d, t) in r.coverage.items() if t > 0)
+        if len(r.coverage) < 20:
+            raise vlib.ToolError("vacuity gate: only %d coverage lines in %s" % (len(r.coverage), cfg))
+        fam = family_of(cfg)
+        # every run must exercise the core of the protocol; every action (but the wedge) must be taken by some run (below)
+        never = [a for a in CORE_ACTIONS if r.coverage.get(a, (0, 0))[1] == 0]
+        if never:
+            raise vlib.ToolError("vacuity gate: actions never taken in %s: %s" % (cfg, never))
+        every |= set(r.coverage)
+        par = ({"timeout_ms": IDLE_TIMEOUT_MS, "slow_ms": IDLE_TIMEOUT_MS // 4} if fam == "idle" else
+               {"timeout_ms": ENV_TIMEOUT_MS, "slow_ms": ENV_TIMEOUT_MS // 4, "abandon_ms": ENV_TIMEOUT_MS // 10} if fam == "env" else
+               {"timeout_ms": TIMEOUT_MS})
+        tmo = par["timeout_ms"]
         for c in vlib.tagged_json(r, "REPLAY"):
             key = (tuple(c["plan"]), tuple(c["gaps"]))
+            expect = [sorted(e) for e in c["expect"]]
+            if any(m not in e for m, e in zip(c["model"], expect)) or len(c["model"]) != len(expect):
+                raise vlib.ToolError("generator: the repaired model's own replies are not admissible: %s" % c)
+            beh = (tuple(c["model"]), tuple(c["gens"]))
             if key in cases:
-                if cases[key]["expect"] != c["expect"] or cases[key]["gens"] != c["gens"]:
-                    raise vlib.ToolError("generator: two behaviours of one case disagree on expect/gens: %s" % (key,))
+                if cases[key]["expect"] != expect:
+                    raise vlib.ToolError("generator: two behaviours of one case disagree on expect: %s" % (key,))
+                cases[key]["behaviours"].add(beh)
                 continue
-            if c["model"] != [e[0] for e in c["expect"]]:
-                raise vlib.ToolError("generator: the repaired model's own replies are not the admissible ones: %s" % c)
-            c["mode"] = "async"
-            cases[key] = c
+            cases[key] = {"plan": c["plan"], "codes": c["gaps"], "gaps": [gap_ms(g, tmo) for g in c["gaps"]], "expect": expect,
+                          "behaviours": {beh}, "mode": "async", "family": fam, **par}
+    never = sorted(a for a in every if a not in taken and a not in WEDGE_ACTIONS)
+    if never or not {"CDrain", "CAbandon", "CKill", "PWriteGone", "PWriteMore", "PReadEof"} <= taken:
+        raise vlib.ToolError("vacuity gate: actions never taken in any generator run: %s" % never)
     out = [cases[k] for k in sorted(cases, key=lambda k: (len(k[0]), k))]
     # the same gaps spent blocking the executor thread (as a REPL waiting for input does): short sequences only
     lim = 3 if thorough else 2
-    out += [dict(c, mode="block") for c in list(out) if len(c["plan"]) <= lim and any(c["gaps"])]
+    out += [dict(c, mode="block") for c in list(out) if len(c["plan"]) <= lim and any(c["gaps"]) and c["family"] != "idle"]
     if not out:
         raise vlib.ToolError("generator printed no cases")
+    return out
+
+
+# payload sizes around and above the pipe buffer (64 KiB), request only / reply only / both, each followed by normal requests
+SIZES = (60000, 65000, 65536, 66000, 70000, 131072, 1000000)
+
+
+def size_cases(thorough):
+    out = []
+    for kind in ("bigin", "bigout", "big"):
+        for n in SIZES:
+            plans = [[kind, "ok", "ok"], ["ok", kind, "ok"], [kind, kind, "ok"]]
+            if thorough:
+                plans += [[kind, "panic", kind, "ok"], ["overrun", kind, "ok", kind]]
+            for plan in plans:
+                table = {"ok": ["Ok"], "panic": ["Panic"], "overrun": ["Timeout"]}
+                out.append({"plan": plan, "codes": [0] * len(plan), "gaps": [0] * len(plan), "mode": "async", "family": "sizes",
+                            "expect": [table.get(k, ["Ok"]) for k in plan], "behaviours": set(), "big_bytes": n,
+                            "timeout_ms": 2000})
     return out
 
 
@@ -249,6 +341,10 @@ CLI_KINDS = {"ok": None, "overrun": "1e999999999", "oom": "2^300000000", "big": 
 
 
 def cli_leg(run, cases, thorough):
+    cli_record(run, *cli_compute(cases, thorough))
+
+
+def cli_compute(cases, thorough):
     """Every TLC-generated fault sequence over {ok, overrun, oom, big} (length <= 3; all gaps 0) typed into the real rink
     binary running its sandboxed REPL: one answer per line, in order, own result or an error naming what happened, and
     every later request answered normally."""
@@ -285,37 +381,55 @@ def cli_leg(run, cases, thorough):
 
     with cf.ThreadPoolExecutor(max_workers=8) as ex:
         results = list(ex.map(one, enumerate(plans)))
+    # timing-dependent (2.5 s limit on a machine shared with the other legs): wrong answers are re-run alone before being believed
+    bad = [n for n, r in enumerate(results) if not cli_judge(*r)[0]]
+    for n in bad[:12]:
+        shutil.rmtree(os.path.join(root, "s%d" % n), ignore_errors=True)
+        again = one((n, plans[n]))
+        if cli_judge(*again)[0]:
+            log("[C18] E: %s answered wrongly beside the other legs, correctly when re-run alone (not believed)" % (plans[n],))
+            results[n] = again
+    shutil.rmtree(root, ignore_errors=True)
+    return plans, results
+
+
+def cli_judge(plan, lines, out, rc):
+    """-> (answers are as the property wants them, the wanted answers)"""
+    want = []
+    for i, k in enumerate(plan):
+        if k == "ok":
+            a, b = lines[i].split(" + ")
+            want.append(("ok", [str(int(a) + int(b))]))
+        elif k == "overrun":
+            want.append(("timeout", ["timed out", "timeout", "time limit"]))      # wording is free, the cause must be named
+        elif k == "oom":
+            want.append(("crashed", ["crash", "memory", "killed", "abort"]))
+        else:
+            want.append(("big", ["meter", "units for"]))
+    want.append(("ok", ["42"]))
+    # one answer per request, in order: find each expected answer after the previous one
+    pos, okk = 0, True
+    for cls, needles in want:
+        hit = next((j for j in range(pos, len(out)) if any(n in out[j].lower() for n in needles)
+                    and (cls != "ok" or not any(w in out[j].lower() for w in ("crash", "timed out", "error")))), None)
+        if hit is None:
+            okk = False
+            break
+        pos = hit + 1
+    return okk and rc == 0, want
+
+
+def cli_record(run, plans, results):
     nbad = 0
     for plan, lines, out, rc in results:
         run.count()
         if any(k != "ok" for k in plan):
             run.nontrivial(("cli",) + plan)
-        want = []
-        for i, k in enumerate(plan):
-            if k == "ok":
-                a, b = lines[i].split(" + ")
-                want.append(("ok", [str(int(a) + int(b))]))
-            elif k == "overrun":
-                want.append(("timeout", ["timed out", "timeout", "time limit"]))      # wording is free, the cause must be named
-            elif k == "oom":
-                want.append(("crashed", ["crash", "memory", "killed", "abort"]))
-            else:
-                want.append(("big", ["meter", "units for"]))
-        want.append(("ok", ["42"]))
-        # one answer per request, in order: find each expected answer after the previous one
-        pos, okk = 0, True
-        for cls, needles in want:
-            hit = next((j for j in range(pos, len(out)) if any(n in out[j].lower() for n in needles)
-                        and (cls != "ok" or not any(w in out[j].lower() for w in ("crash", "timed out", "error")))), None)
-            if hit is None:
-                okk = False
-                break
-            pos = hit + 1
-        if not okk or rc != 0:
+        okk, want = cli_judge(plan, lines, out, rc)
+        if not okk:
             nbad += 1
             run.violation({"engine": "cli-sandbox", "plan": list(plan), "lines": lines, "rc": rc},
                           {"answers_in_order": [w[0] + ": " + "|".join(w[1]) for w in want]}, {"stdout": out[-12:]}, "cli-sandbox")
-    shutil.rmtree(root, ignore_errors=True)
     run.note("cli_sequences", len(plans))
     if plans:
         run.sample({"leg": "E", "typed": results[len(results) // 2][1], "printed": results[len(results) // 2][2][-6:]})
@@ -342,28 +456,53 @@ def run_(tier, seed):
     run = vlib.Run(PROP, tier, seed, "model_checking")
     thorough = tier == "thorough"
     run.cov["rule"] = (
-        "D: TLC explores Sandbox.tla exhaustively for every fault sequence over {ok, panic, overrun, oom, exit, big} up to length "
-        "%d with gap 0 / long before every request. G: every (sequence, gap vector) printed by TLC%s is run through the real "
-        "Sandbox::execute (timeout %d ms, memory limit %d MiB, big payload 200000 bytes, gaps 0/60 ms; short sequences also with "
-        "blocking gaps) and each reply compared with the set of classes the property admits; a mismatch is re-run alone before "
-        "it is believed. Non-trivial = the sequence contains a fault followed by a later request; distinct by fault sequence. "
-        "V: the hook/call/ret event sequence of every conforming run is validated by Trace_Sandbox.tla (distinct sequences)."
-        % (5,
-           " (length <= 4 with every gap vector, length 5 with all gaps 0 and all gaps 60 ms)" if thorough else " (length <= 3, every gap vector)",
-           TIMEOUT_MS, LIMIT >> 20))
+        "D: TLC explores Sandbox.tla exhaustively for every sequence over the request kinds {ok, panic, overrun, oom, exit, big} and "
+        "the environment events {abandon (the caller drops the future of a slow request), abover (of an overrunning one), kill (the "
+        "idle child is killed from outside)} up to length %d with gap 0 / long before every entry. G: every (sequence, gap vector) "
+        "printed by TLC%s is run through the real Sandbox::execute (timeout %d ms, memory limit %d MiB, big payload 200000 bytes, "
+        "gaps 0/60 ms; short sequences also with blocking gaps; environment family: limit %d ms, slow request %d ms abandoned after "
+        "%d ms; idle-time family: limit %d ms, idle gaps 0.85 and 1.3 of it before ok / slow (a quarter of the limit) / overrunning "
+        "requests; size family: payloads of %s "
+        "bytes in the request, the reply and both) and each reply compared with the set of classes the property admits; a mismatch "
+        "is re-run alone before it is believed. Non-trivial = the sequence contains a fault or environment event followed by a later "
+        "entry; distinct by sequence. V: the hook/call/ret/envkill event sequence of every conforming run is validated by "
+        "Trace_Sandbox.tla (distinct sequences)."
+        % (5 if thorough else 4,
+           " (requests: length <= 4 with every gap vector, length 5 with uniform gaps; with environment events: length <= 3 with every "
+           "gap vector, length 4 with uniform gaps)" if thorough else
+           " (requests: length <= 3, every gap vector; with environment events: length <= 3, uniform gaps)",
+           TIMEOUT_MS, LIMIT >> 20, ENV_TIMEOUT_MS, ENV_TIMEOUT_MS // 4, ENV_TIMEOUT_MS // 10, IDLE_TIMEOUT_MS,
+           "/".join(str(n) for n in SIZES)))
     run.assumptions += [
         "the timer fires only for a handler that really outlives the limit (generous limits; a mismatch is re-run alone)",
         "Ctrl-C (Error::Interrupted) is outside the property's quantifier and not modelled",
         "pipe capacity 2 chunks / big frame 3 chunks stand for 64 KiB / 200000 bytes",
+        "an abandoned request is one whose future is dropped after the request was sent (execute sends at its first poll when no "
+        "earlier reply is outstanding); the outside kill hits a child that is idle (the parent task waiting for a request); a kill "
+        "during the start-up handshake is not modelled",
+        "a request sent right after an outside kill (gap 0) may still reach the dying child: Crashed is admitted for it; with a gap "
+        "the harness waits until the killed process is gone and only the request's own reply is admitted",
         "harness trusted for: the test service, process control, comparing an echoed payload with the one sent, classifying Error variants",
     ]
     vlib.build_harness(bins=["rv-sandbox"])
 
-    design_leg(run, thorough)
-    cases = generate(run, thorough)
-    log("[C18] %d cases generated" % len(cases))
-
-    obs = run_cases(cases, JOBS, "cases")
+    # the design leg's TLC runs overlap with generation and replay (they only share the machine)
+    t0 = time.time()
+    design_pool = ThreadPoolExecutor(max_workers=2)
+    design_future = design_pool.submit(design_compute, thorough)
+    try:
+        cases = generate(run, thorough)
+        cases += size_cases(thorough)
+        log("[C18] %d cases generated (%.0f s)" % (len(cases), time.time() - t0))
+        # E: the same fault sequences end to end through the real `rink` REPL with [limits] enabled (cli/src/repl.rs +
+        #    cli/src/service.rs: RinkService holds a mutex during handle; GLOBAL allocator limit); runs beside the replay
+        cli_future = design_pool.submit(cli_compute, cases, thorough)
+        obs = run_cases(cases, JOBS, "cases")
+        log("[C18] cases replayed (%.0f s)" % (time.time() - t0))
+    finally:
+        design_pool.shutdown(wait=True)
+    design_record(run, design_future.result())
+    log("[C18] design leg done (%.0f s)" % (time.time() - t0))
     good, bad = [], []
     for c, o in zip(cases, obs):
         run.count()
@@ -413,19 +552,28 @@ def run_(tier, seed):
             log("[C18] %d mismatches under load did not reproduce when re-run alone twice (not believed)" % unrepro)
 
     # ---- respawn pattern vs transcription (drift level): equal pids <=> equal child generation
-    ndrift = 0
+    #      (among the transcription's behaviours with the observed reply classes)
+    ndrift = nnobeh = 0
+    back = {v: k for k, v in CLASS.items()}
     for c, o in good:
+        if not c["behaviours"]:
+            continue
+        classes = tuple(back.get(r["class"]) for r in o["replies"])
+        cands = [g for m, g in c["behaviours"] if m == classes]
+        if not cands:
+            nnobeh += 1
+            continue
         oks = [(i, r["pid"]) for i, r in enumerate(o["replies"]) if r["class"] == "ok"]
-        for (i, p1) in oks:
-            for (j, p2) in oks:
-                if i < j and ((p1 == p2) != (c["gens"][i] == c["gens"][j])):
-                    ndrift += 1
+        if not any(all((p1 == p2) == (g[i] == g[j]) for (i, p1) in oks for (j, p2) in oks if i < j) for g in cands):
+            ndrift += 1
     if ndrift:
-        run.drift_note("Sandbox", "%d reply pairs: same/different child pid disagrees with the transcription's respawn pattern" % ndrift)
+        run.drift_note("Sandbox", "%d runs: same/different child pids disagree with the transcription's respawn pattern" % ndrift)
+    if nnobeh:
+        run.drift_note("Sandbox", "%d runs: admissible replies that no behaviour of the transcription produces" % nnobeh)
 
-    # ---- E: the same fault sequences end to end through the real `rink` REPL with [limits] enabled
-    #      (cli/src/repl.rs + cli/src/service.rs: RinkService holds a mutex during handle; GLOBAL allocator limit)
-    cli_leg(run, cases, thorough)
+    log("[C18] mismatches settled (%.0f s)" % (time.time() - t0))
+    cli_record(run, *cli_future.result())
+    log("[C18] cli leg done (%.0f s)" % (time.time() - t0))
 
     # ---- V: trace validation of the conforming runs
     if good:
@@ -447,9 +595,12 @@ def replay(path, seed):
         return 2
     adm = (body.get("spec_allows") or {}).get("admissible")
     if not adm:
-        table = {"ok": ["Ok"], "big": ["Ok"], "panic": ["Panic"], "overrun": ["Timeout"], "oom": ["Crashed"], "exit": ["Crashed"]}
+        table = {"ok": ["Ok"], "big": ["Ok"], "bigin": ["Ok"], "bigout": ["Ok"], "slow": ["Ok"], "panic": ["Panic"],
+                 "overrun": ["Timeout"], "oom": ["Crashed"], "exit": ["Crashed"], "abandon": ["Abandoned", "Ok"],
+                 "abover": ["Abandoned", "Timeout"], "kill": ["Env"]}
         adm = [table[k] for k in case["plan"]]
     c = {"plan": case["plan"], "gaps": case["gaps"], "mode": case.get("mode", "async"), "expect": adm}
+    c.update({k: case[k] for k in PARAMS if case.get(k)})
     rc = 0
     for n in range(3):
         o = run_cases([c], 1, "replay")[0]
